@@ -46,8 +46,14 @@ fn member_case(idx: u32, with_membership_key: bool, signed: bool, vacant: bool) 
 fn member_case_t(idx: u32, with_membership_key: bool, signed: bool, vacant: bool, tbm: bool) {
     member_case_g(idx, with_membership_key, signed, vacant, tbm, None)
 }
-/// `tag_present`: fix the presence of the tag per instance (None: symbolic).
 fn member_case_g(idx: u32, with_membership_key: bool, signed: bool, vacant: bool, tbm: bool, tag_present: Option<bool>) {
+    member_case_c(idx, with_membership_key, signed, vacant, tbm, tag_present, true)
+}
+/// `tag_present`: fix the presence of the tag per instance (None: symbolic).
+/// `app`: application content (payload = one symbolic byte); otherwise an empty commit carrying a
+/// two-byte confirmation tag (same TBS size; the MAC-input comparison is for application content only).
+fn member_case_c(idx: u32, with_membership_key: bool, signed: bool, vacant: bool, tbm: bool, tag_present: Option<bool>, app: bool) {
+    assert!(app || !tbm);
     let mut log = Log::new(2);
     let uf = Uf::new_verifying(&mut log);
     let (ctx, ctx_enc) = sym_context();
@@ -58,7 +64,17 @@ fn member_case_g(idx: u32, with_membership_key: bool, signed: bool, vacant: bool
     let ad = any_bytes::<1>();
     let data = any_bytes::<1>();
     let sig = any_bytes::<2>();
-    let content = auth_content(WireFormat::PublicMessage, vec_of(gid), epoch, s, vec_of(ad), Some(vec_of(data)), vec_of(sig), None);
+    let ctag = any_bytes::<2>();
+    let content = auth_content(
+        WireFormat::PublicMessage,
+        vec_of(gid),
+        epoch,
+        s,
+        vec_of(ad),
+        if app { Some(vec_of(data)) } else { None },
+        vec_of(sig),
+        if app { None } else { Some(vec_of(ctag)) },
+    );
 
     // the message's tag: absent, or two symbolic bytes
     let has_tag: bool = match tag_present {
@@ -84,7 +100,7 @@ fn member_case_g(idx: u32, with_membership_key: bool, signed: bool, vacant: bool
     // not constant-folded by the model checker (DESIGN 9.3)
     let ctx_enc = rk::fix::<22>(&ctx_enc);
     let want_tbm_v = rk::authenticated_content_tbm(1, &gid, epoch, sref, &ad, Some(&data), &ctx_enc, &sig, None);
-    let want_tbs_v = rk::framed_content_tbs(1, &gid, epoch, sref, &ad, Some(&data), &ctx_enc);
+    let want_tbs_v = rk::framed_content_tbs(1, &gid, epoch, sref, &ad, if app { Some(&data) } else { None }, &ctx_enc);
     assert!(want_tbm_v.len() == TBM && want_tbs_v.len() == TBS);
     let want_tbm = rk::fix::<TBM>(&want_tbm_v);
     let want_tbs = rk::fix::<TBS>(&want_tbs_v);
@@ -131,10 +147,10 @@ fn member_case_g(idx: u32, with_membership_key: bool, signed: bool, vacant: bool
             assert!(rk::eq(&ad, &rk::fix::<1>(&got_ad)) && got_ad.len() == 1, "reported authenticated data differs");
             match got_payload {
                 Some(p) => {
-                    assert!(p.len() == 1 && p[0] == data[0], "reported payload differs");
+                    assert!(app && p.len() == 1 && p[0] == data[0], "reported payload differs");
                     forget(p);
                 }
-                None => panic!("payload lost"),
+                None => assert!(!app, "payload lost"),
             }
             forget(got_ad);
             kani::cover!(true, "accepted");
@@ -176,6 +192,8 @@ zstubs! { #[kani::unwind(90)] fn c03_public_auth_sig_member1() { member_case(1, 
 zstubs! { #[kani::unwind(90)] fn c03_public_auth_vacant_member0() { member_case(0, false, false, true); } }
 zstubs! { #[kani::unwind(90)] fn c03_public_auth_vacant_member1() { member_case(1, false, false, true); } }
 zstubs! { #[kani::unwind(90)] fn c03_public_auth_signed_member0() { member_case(0, false, true, false); } }
+// Commit content (`app = false`): did not finish in 25 min (the real error path drops the boxed Commit);
+// not instantiated, recorded as outside in the registry.
 zstubs! { #[kani::unwind(90)] fn c03_public_auth_signed_member1() { member_case(1, false, true, false); } }
 
 /// A sender index past the key list, any u32: rejected (never a panic).
